@@ -25,7 +25,8 @@ RULE = ("kind saveload: zoo crystal (extended symbols, magnetic moments, custom 
         "compared: cells, matrices, dataset, FC, NAC, calculator, unit factor, phonon eigenvalues; "
         "kind fileio: write/parse of FORCE_SETS (types 1,2, to_type2), FORCE_CONSTANTS (full, compact+p2s_map), force_constants.hdf5 (bit exact), BORN, dataset type conversion; "
         "kind priority: documented priority list of load() for force sources checked pairwise with distinguishable contents; "
-        "non-trivial = file really contains the compared block; distinct = parameter tuple")
+        "non-trivial = file really contains the compared block; distinct = parameter tuple; "
+        "additions of rounds 6-8: magnetic cell with zero and negative moments; datasets without forces (both types)")
 ASSUMPTIONS = [
     "tolerance of a numeric field = half a unit of its last printed decimal, measured from the written text per block",
     "type-2 datasets cannot be turned into force constants here (symfc/ALM absent): their write/read/convert identity is still decided",
